@@ -53,7 +53,12 @@ func sharedSpec(version int) *rstep.ASpec {
 	v := float64(version)
 	tick := Op{K: actlang.Tick}
 	return &rstep.ASpec{ActionErrorNode: "errh", Nodes: map[string]*rstep.ANode{
-		"start": {Type: "message", Branches: []rstep.ABranch{{Pattern: M{"go": "?g"}, Target: "a"}}},
+		// patterns of every kind live in the shared spec: arrays (a variable next to constants), property
+		// variables, optional and inequality variables - the matcher gets the spec's own pattern objects
+		"start": {Type: "message", Branches: []rstep.ABranch{
+			{Pattern: M{"go": "?g", "tags": []interface{}{"?t", "x", "y"}}, Target: "a"},
+			{Pattern: M{"go": "?g", "opt": M{"?k": "??o"}}, Target: "a"},
+			{Pattern: M{"go": "?g"}, Target: "a"}}},
 		"a": {Action: actlang.P(true, tick, Op{K: actlang.Set, A: "a", V: v}, tick, Op{K: actlang.Emit, V: M{"at": "a", "v": v}}),
 			Branches: []rstep.ABranch{{Pattern: M{"fail": "native"}, Target: "nfail"},
 				// a short script without yield points (for a walker whose context is already dead it runs to completion)
@@ -65,7 +70,8 @@ func sharedSpec(version int) *rstep.ASpec {
 				{Pattern: M{"fail": "js"}, Target: "jfail"},
 				{Pattern: M{"id": "?id"}, Guard: actlang.P(false, tick, Op{K: actlang.Set, A: "guarded", V: true}), Target: "c"}}},
 		"c": {Action: actlang.P(true, tick, Op{K: actlang.Emit, V: M{"at": "c", "v": v}}),
-			Branches: []rstep.ABranch{{Pattern: M{"reject": true}, Guard: actlang.P(true, tick, Op{K: actlang.RetNull}), Target: "a"}, {Target: "start"}}},
+			Branches: []rstep.ABranch{{Pattern: M{"reject": true}, Guard: actlang.P(true, tick, Op{K: actlang.RetNull}), Target: "a"},
+				{Pattern: M{"tags": []interface{}{"?u", "x"}}, Target: "start"}, {Target: "start"}}},
 		"nfail": {Action: actlang.P(true, tick, Op{K: actlang.Emit, V: "lost"}, Op{K: actlang.Throw}), Branches: []rstep.ABranch{{Target: "start"}}},
 		"jfail": {Action: actlang.P(false, tick, Op{K: actlang.Emit, V: "lost"}, tick, Op{K: actlang.Throw}), Branches: []rstep.ABranch{{Target: "start"}}},
 		"errh":  {Type: "message", Branches: []rstep.ABranch{{Pattern: M{"go": "?g"}, Target: "a"}}},
@@ -197,8 +203,8 @@ func runC12(sc c12Scenario, specs []*core.Spec, prefix, prefixN []int) (*sched.E
 
 func c12Scenarios(thorough bool) []c12Scenario {
 	ws := []walker{
-		{Name: "w1", Bs: M{"id": 1.0}, Msgs: []interface{}{M{"go": 1.0}}},
-		{Name: "w2", Bs: M{"id": 2.0, "n": 10.0}, Msgs: []interface{}{M{"go": 2.0}, M{"go": 3.0}}},
+		{Name: "w1", Bs: M{"id": 1.0, "tags": []interface{}{"x", "y"}}, Msgs: []interface{}{M{"go": 1.0}}},
+		{Name: "w2", Bs: M{"id": 2.0, "n": 10.0}, Msgs: []interface{}{M{"go": 2.0, "tags": []interface{}{"y", "z", "x"}}, M{"go": 3.0, "opt": M{"p": 1.0}}}},
 		{Name: "w3", Bs: M{"id": 3.0, "fail": "js"}, Msgs: []interface{}{M{"go": 1.0}}},
 		{Name: "w4", Bs: M{"id": 4.0, "fail": "native"}, Msgs: []interface{}{M{"go": 1.0}}},
 		{Name: "w5", Bs: M{"id": 5.0}, Msgs: []interface{}{M{"go": 1.0}}, CancelAt: 3},
